@@ -47,6 +47,27 @@ CLAIMS = {
             "length 0..=255 is recorded from the real code and validated by TLC.",
             "Trusted: TLC, Message.tla, Frame.tla. Injectivity on the real code follows from the per-message round trip.",
             "DESIGN.md section 5 C05", TECH_MGV),
+    "C09": ("model_checking",
+            "Controller.tla contains a reference-free transfer monitor (acknowledged request first; per item consecutive chunks of at most 16 bytes at "
+            "offsets 0,16,32,.. whose concatenation is the item; count = chunks since the request; result asked only afterwards). TLC checks it as an "
+            "invariant on every reply script of the bounded controller model (incl. retries, ragged and empty items); TLC's scripts and "
+            "cooperative-or-failing buses drive the real Sign (all 11 configurations; page lists of arbitrary dimensions from one chunk up to 65536 "
+            "bytes) and TLC runs the same monitor over the conversations that actually took place.",
+            "Trusted: TLC, the monitor's reading of the property. Assumes fewer than 65536 chunks per transfer. Items come from SignType::to_bytes / Page::as_bytes.",
+            "DESIGN.md section 5 C09", TECH_MGV),
+    "C10": ("model_checking",
+            "Controller.tla is the documented controller protocol as a Mealy machine (CMsg, Recv). TLC enumerates every reply script over the reply "
+            "alphabet to the natural end of each operation (polling bounded) and each complete behaviour is replayed against the real Sign through a "
+            "scripted SignBus, message by message and on the outcome; random adversarial conversations of the real Sign with a richer alphabet are "
+            "validated by TLC against CMsg/Recv.",
+            "Trusted: TLC, the transcription of the rustdoc protocol. Polling loops cut at 4 queries; configure-if-needed uses a sub-alphabet in quick.",
+            "DESIGN.md section 5 C10", TECH_MGV),
+    "C11": ("model_checking",
+            "The C11 clauses are predicates over a conversation only (Controller!C11Log / C11Return). TLC checks them on every prefix of every reply "
+            "script of the bounded model; every script then drives the real Sign and TLC evaluates the same predicates on the conversation that "
+            "actually took place, as it does for random adversarial conversations. Being reference-free it does not alarm on protocol changes that keep C11.",
+            "Trusted: TLC, the log-only definition of 'reply allowed at this point'.",
+            "DESIGN.md section 5 C11", TECH_MGV),
     "C12": ("model_checking",
             "VirtualSign.tla is a total step function (TLC evaluates every alphabet message in every reachable state of the bounded model, so the "
             "design has no crashing history); every one of those transitions is delivered to a real VirtualSign under catch_unwind; long random "
